@@ -37,6 +37,8 @@ CONSTANTS
   MaxDim,      \* maximal axis dimension
   FinalOps,    \* operations that may only be applied as the last step (passes etc.)
   OpLevels,    \* sequence of operation sets, one per program position (<< >>: use OpSet everywhere)
+  ReplMaps,    \* sequence of [src |-> terminal position, sub |-> Seq(env)]: replacement maps (C21):
+               \* in environment sub[e] the terminal src has the value its image has in e (0: none)
   MiKinds,     \* subset of {"fixed", "name", "slice"}: entries allowed in the multi-index of a[...]
   DumpFinalOnly \* TRUE: only programs whose last operation is in FinalOps are handed to the replay
 
@@ -399,6 +401,12 @@ PassOk(op, x) == /\ IsVal(x)
 DoPass(op, a) == LET x == store[a] IN
   /\ PassOk(op, x)
   /\ Push(Node(op, <<a>>, << >>, "", x.sh, x.fi, x.val))
+\* replace(e, {src: image}) denotes e evaluated where src takes the value of its image: by
+\* construction of the environments that is the value of e in environment sub[e].
+DoReplace(a, p) == LET x == store[a]  m == ReplMaps[p] IN
+  /\ IsVal(x)
+  /\ Push(Node("replace", <<a>>, <<p>>, "", x.sh, x.fi,
+               [e \in Envs |-> IF m.sub[e] = 0 THEN [t \in DOMAIN x.val[e] |-> CU] ELSE x.val[m.sub[e]]]))
 \* variable(e): a labelled expression; denotes what e denotes
 DoVariable(a) == LET x == store[a] IN
   /\ IsVal(x) /\ x.op # "variable" /\ x.fi = << >>   \* variable.py: "Variable cannot wrap an expression with free indices"
@@ -437,6 +445,7 @@ Next ==
        \/ "sym" \in CurOps /\ DoSym(a)
        \/ "not" \in CurOps /\ DoNot(a)
        \/ "variable" \in CurOps /\ DoVariable(a)
+       \/ "replace" \in CurOps /\ \E p \in 1..Len(ReplMaps) : DoReplace(a, p)
        \/ "xdet" \in CurOps /\ DoXDet(a)
        \/ "xinv" \in CurOps /\ DoXInv(a)
        \/ "xadj" \in CurOps /\ DoXAdj(a)
